@@ -136,6 +136,13 @@ def differential(prop, res, export, expect_path, binary, label, valgrind=False, 
         elif crashed:
             res["inconclusive"].append(f"{label}: driver exited with {code} after {len(got)} of {len(segs)} problems without a sanitizer report, see {logp}")
     res["jobs"].append(dict(label=label, code=code, cmd=os.path.basename(binary) + (" (valgrind)" if valgrind else ""), evaluations=compared, sanitizer_reports=len(reports)))
+    # what the C++ provider did (its own counters, printed on stderr at exit)
+    try:
+        m = re.search(r"solved=(\d+) callbacks=(\d+) vectors_with_slack_returned=(\d+) favored_or_locked_pointing_into_returned_vector=(\d+)", open(logp, errors="replace").read())
+    except OSError:
+        m = None
+    if m:
+        res["extra"].update({f"{label}:provider_callbacks": int(m.group(2)), f"{label}:vectors_with_slack_returned": int(m.group(3)), f"{label}:favored_or_locked_pointing_into_returned_vector": int(m.group(4))})
     return compared, disagreements, len(reports)
 
 
